@@ -713,19 +713,42 @@ def precedes(ctx, body, a_blocks, b_blocks, rule, what, checked_spec=None):
     return True
 
 
-def never_after(ctx, body, a_blocks, b_blocks, rule, what):
-    """No path from any A block to any B block."""
+def never_after(ctx, body, a_blocks, b_blocks, rule, what, per_pair=False, b_desc=None):
+    """No path from any A block to any B block. With per_pair, every (A-kind, B) pair that is
+    connected is its own violation (keyed by the callee of A and a description of B), so a
+    known finding about one pair does not hide a different one."""
     ctx.evaluations += 1
-    starts = []
+    bad = []
     for a in a_blocks:
-        starts += [d for d, _ in body.out_edges(a)]
-    path = body.path_to(starts, set(b_blocks)) if starts else None
-    if path is not None:
-        rp = body.render_path(path)
+        starts = [d for d, _ in body.out_edges(a)]
+        reach = body.reachable_from(starts)
+        for bb in b_blocks:
+            if bb in reach:
+                bad.append((a, bb))
+    if not bad:
+        ctx.ok(rule, body.path, what, detail=dict(a=[body.loc(a) for a in a_blocks][:6], b=[body.loc(b) for b in b_blocks][:6]))
+        return True
+    if not per_pair:
+        a, bb = bad[0]
+        path = body.path_to([d for d, _ in body.out_edges(a)], {bb})
+        rp = body.render_path(path) if path else []
         ctx.violate(rule, body.path, "%s" % what, site=rp[-1] if rp else None, key="%s|%s|after" % (rule, body.path), path=rp)
         return False
-    ctx.ok(rule, body.path, what, detail=dict(a=[body.loc(a) for a in a_blocks][:6], b=[body.loc(b) for b in b_blocks][:6]))
-    return True
+    seen = set()
+    for a, bb in bad:
+        t = body.blocks[a]["t"]
+        asig = re.sub(r"<[^<>]*>", "", callee_of(t)).split("::")[-1] if t["k"] == "call" else "assign"
+        recv = ""
+        if t["k"] == "call" and t["args"]:
+            ls = sorted(l for l in ctx.leaves(body.expr_operand(t["args"][0])) if re.match(r"^(self|a1)\.", l))
+            recv = ls[0] if ls else ""
+        bsig = b_desc(bb) if b_desc else body.loc(bb)
+        k = (asig, recv, bsig)
+        if k in seen:
+            continue
+        seen.add(k)
+        ctx.violate(rule, body.path, "%s: %s of %s precedes the rejecting exit %s" % (what, asig, recv or "store state", bsig), site=body.loc(bb), key="%s|%s|after|%s|%s|%s" % (rule, body.path, asig, recv, bsig))
+    return False
 
 
 # ---------------------------------------------------------------------------- engine W
@@ -951,3 +974,36 @@ def release_sites(body, hold, seeds=(), include_cleanup=False):
 
 def yields(body):
     return [b for b in range(body.n) if not body.blocks[b]["cl"] and body.blocks[b]["t"]["k"] == "yield"]
+
+
+def value_source_calls(e, depth=0, seen=None):
+    """Calls a value is the (awaited / `?`-unwrapped / converted) result of: follows only the
+    first operand through Result/Option combinators, transparent wrappers, Future::poll and
+    resolved coroutine polls, and the non-mutation alternatives of a phi."""
+    if seen is None:
+        seen = set()
+    out = []
+    if depth > 30 or id(e) in seen:
+        return out
+    seen.add(id(e))
+    tag = e[0]
+    if tag == "call":
+        name = e[1]
+        if is_combinator(e) or std_tail(e[2]) in ("Future::poll",) or name.endswith("}") or std_tail(e[2]) in ("Pin::new_unchecked", "IntoFuture::into_future"):
+            if e[3]:
+                out += value_source_calls(e[3][0], depth + 1, seen)
+        else:
+            out.append(e)
+    elif tag in ("proj", "part"):
+        out += value_source_calls(e[2], depth + 1, seen)
+    elif tag == "cast":
+        out += value_source_calls(e[1], depth + 1, seen)
+    elif tag == "phi":
+        for a in e[1]:
+            if a[0] != "mut":
+                out += value_source_calls(a, depth + 1, seen)
+    elif tag == "lazy":
+        v = e[1]._expr_memo.get(e[2])
+        if v is not None:
+            out += value_source_calls(v, depth + 1, seen)
+    return out
